@@ -24,7 +24,7 @@ LEVEL_TEXT = ("Machine-checked Coq theorems over all valid DequeOptions and all 
               "of every history of the monitor by instantiating the generic locked-object theorem. Model tied to /repo by differential "
               "correspondence, history linearization re-validated in Coq, and direct oracles on every run.")
 LEVEL_NOTE = ("Sequential half full; concurrent half partial: linearizability is proved for all interleavings of the modelled critical sections, "
-              "the monitor shape of the Go code and the Go runtime primitives are trusted/exercised by recorded histories (400 quick). "
+              "the monitor shape of the Go code and the Go runtime primitives are trusted/exercised by recorded histories (4000 quick, 60000 thorough, <= 12 ops, 2-6 goroutines). "
               "Wake-up discipline theorems belong to C07; here only scenario tests with 10 s deadlines. Trusted: Coq kernel + vm_compute, "
               "hand-written model, Go driver incl. its linearizability search.")
 TECHNIQUE = "Coq proof (ring invariant + refinement by induction over op lists; generic monitor linearizability theorem) + vm_compute correspondence against pubsub.Deque, WGL-style history search re-validated in Coq"
